@@ -529,10 +529,22 @@ async fn reader(ctx: Rc<Ctx>, name: &'static str, s: Rc<S>, owned: bool, borrowe
         let mut eof = false;
         let mut i = 0usize;
         let drain = Op { k: "recv".into(), c: DRAIN_CAP as u64, sh: "exact".into(), ..Default::default() };
+        // after a multishot stream was dropped before its end the next bytes are received with a
+        // plain receive of moderate capacity, so that the position in the stream is known again
+        // before tiny buffers are used (dropping such a stream can lose bytes, see notes/C14.md)
+        let resync = Op { k: "recv".into(), c: 64, sh: "exact".into(), ..Default::default() };
+        let mut need_resync = false;
         let mut guard = 0u64;
         while !eof {
-            let (op, draining) = if i < ops.len() { (&ops[i], false) } else { (&drain, true) };
-            i += 1;
+            let (op, draining) = if need_resync {
+                (&resync, true)
+            } else if i < ops.len() {
+                i += 1;
+                (&ops[i - 1], false)
+            } else {
+                (&drain, true)
+            };
+            need_resync = false;
             guard += 1;
             if guard > 4096 || log.over() {
                 ctx.err("reader exceeded the operation / event limit".into());
@@ -564,7 +576,7 @@ async fn reader(ctx: Rc<Ctx>, name: &'static str, s: Rc<S>, owned: bool, borrowe
                     match res {
                         Ok(k) => {
                             let runs = dec.decode(raw(&buf, k));
-                            log.ev(merge(merge(rhead, extra), json!({"res": "ok", "k": k, "runs": runs_json(&runs),
+                            log.ev(merge(merge(merge(rhead, extra), runs_fields(&runs, raw(&buf, k))), json!({"res": "ok", "k": k,
                                 "len": buf.len(), "cap": buf.capacity(), "same": buf.as_ptr() as usize == ptr && buf.capacity() == cap})));
                             eof = k == 0 && cap > 0;
                         }
@@ -600,7 +612,7 @@ async fn reader(ctx: Rc<Ctx>, name: &'static str, s: Rc<S>, owned: bool, borrowe
                             let runs = dec.decode(&data);
                             let same = bufs[0].as_ptr() as usize == ptrs[0] && bufs[1].as_ptr() as usize == ptrs[1]
                                 && bufs[0].capacity() == caps[0] && bufs[1].capacity() == caps[1];
-                            log.ev(merge(merge(rhead, extra), json!({"res": "ok", "k": k, "runs": runs_json(&runs),
+                            log.ev(merge(merge(merge(rhead, extra), runs_fields(&runs, &data)), json!({"res": "ok", "k": k,
                                 "lens": [bufs[0].len(), bufs[1].len()], "len": bufs[0].len() + bufs[1].len(),
                                 "cap": caps[0] + caps[1], "same": same})));
                             eof = k == 0 && caps[0] + caps[1] > 0;
@@ -624,7 +636,7 @@ async fn reader(ctx: Rc<Ctx>, name: &'static str, s: Rc<S>, owned: bool, borrowe
                     match res {
                         Ok(Some((b, extra))) => {
                             let runs = dec.decode(&b);
-                            log.ev(merge(merge(rhead, extra), json!({"res": "ok", "k": b.len(), "runs": runs_json(&runs), "len": b.len()})));
+                            log.ev(merge(merge(merge(rhead, extra), runs_fields(&runs, &b)), json!({"res": "ok", "k": b.len(), "len": b.len()})));
                             drop(b);
                         }
                         Ok(None) => {
@@ -661,8 +673,9 @@ async fn reader(ctx: Rc<Ctx>, name: &'static str, s: Rc<S>, owned: bool, borrowe
                                         let runs = dec.decode(data);
                                         let ex: Value = $extra(&item);
                                         let empty = data.is_empty();
-                                        log.ev(merge(merge(json!({"e": "item", "id": id, "op": op.k, "peer": name, "task": "r", "dir": d}), ex),
-                                                     json!({"res": "ok", "k": data.len(), "runs": runs_json(&runs), "len": data.len()})));
+                                        log.ev(merge(merge(merge(json!({"e": "item", "id": id, "op": op.k, "peer": name, "task": "r", "dir": d}), ex),
+                                                           runs_fields(&runs, data)),
+                                                     json!({"res": "ok", "k": data.len(), "len": data.len()})));
                                         taken += 1;
                                         drop(item);
                                         if empty || taken >= MAX_ITEMS {
@@ -710,6 +723,8 @@ async fn reader(ctx: Rc<Ctx>, name: &'static str, s: Rc<S>, owned: bool, borrowe
                     } else {
                         log.ev(json!({"e": "drop", "id": id, "op": op.k, "peer": name, "task": "r", "dir": d, "taken": taken,
                                       "emptyitem": emptyitem}));
+                        need_resync = true;
+                        dec.lossy = true;
                     }
                 }
                 other => {
